@@ -19,12 +19,22 @@ VAULT_SUITE = {"suite": "vault", "trace": "Trace_Vault", "cfg": "Trace_Vault.cfg
 MC_VAULT = {"module": "MC_Vault", "quick": "MC_Vault_quick.cfg", "thorough": "MC_Vault.cfg", "workers": 6,
             "timeout": {"quick": 600, "thorough": 3000}}
 
+LAIR_RANDOM = {"suite": "lair", "trace": "Trace_Lair", "cfg": "Trace_Lair.cfg",
+               "quick": {"runs": 120, "ops": 40}, "thorough": {"runs": 3000, "ops": 60}, "procs": 6}
+LAIR_SCHED = {"suite": "lair", "trace": "Trace_Lair", "cfg": "Trace_Lair.cfg", "sched_from": "MC_Lair_sched",
+              "extra": {"mode": "sched"}, "quick": {"runs": 1500}, "thorough": {"runs": 0}, "procs": 8}
+MC_LAIR = {"module": "MC_Lair", "quick": "MC_Lair_quick.cfg", "thorough": "MC_Lair.cfg", "workers": 6,
+           "timeout": {"quick": 600, "thorough": 3000}}
+MC_LAIR_SCHED = {"module": "MC_Lair", "quick": "MC_Lair_sched.cfg", "thorough": "MC_Lair_sched5.cfg", "workers": 4,
+                 "emits": "MC_Lair_sched", "timeout": {"quick": 600, "thorough": 3000}}
+
 PROPS = {
     "C01": {"mc": [MC_POOL], "suites": [POOL_SUITE]},
     "C02": {"mc": [MC_CPMATH], "suites": [MATH_CP, POOL_SUITE]},
     "C05": {"mc": [MC_VAULT], "suites": [VAULT_SUITE]},
     "C06": {"mc": [MC_VAULT], "suites": [VAULT_SUITE]},
     "C07": {"mc": [MC_POOL, MC_VAULT], "suites": [POOL_SUITE, VAULT_SUITE]},
+    "C08": {"mc": [MC_LAIR, MC_LAIR_SCHED], "suites": [LAIR_SCHED, LAIR_RANDOM]},
     "C14": {"mc": [MC_POOL, MC_VAULT], "suites": [POOL_SUITE, VAULT_SUITE]},
     "C15": {"mc": [MC_POOL], "suites": [POOL_SUITE, MATH_SPREAD]},
 }
